@@ -18,11 +18,17 @@ import numpy as np
 from scipy.spatial import ConvexHull
 
 import gen
-from common import L, ModelRaise, exc_kind
+from common import L, ModelRaise, exc_kind, read_shuffled
 
 RULE = ("3-D: convex vertex sets from gen.convex_solid (ellipsoid/lattice/zonotope/box/prism/antiprism/(di)pyramid/"
         "needle/plate/simplex; random rigid motion, offset <=10 diameters, scale 1e-3..1e3, permuted) plus tabulated "
-        "solids and cubes/boxes with closed forms; 2-D: convex polygons from c11_convex_polygon (regular/ellipse/"
+        "solids and cubes/boxes with closed forms, plus the local classes c11_sharp_solid (flat bipyramids, thin wedge "
+        "prisms, hulls flattened to aspect 1e-3..0.05: knife-edge dihedrals 0.05..8 degrees; gabled boxes with nearly "
+        "coplanar roof faces, tilt 1e-5..3e-2 rad; needles stretched x50..1000) and boxes/prisms in an almost axis-"
+        "aligned frame (gen.near_axis_rotation); a third of the objects is reached through mutators "
+        "(history.maybe_via_history) and a quarter of the cores additionally runs an explicit history of 1-4 mutators "
+        "(radius / volume / surface_area / mean_curvature setters, _rescale, interleaved reads) that is replayed in the "
+        "Lean model; queries are read in a per-case shuffled order; 2-D: convex polygons from c11_convex_polygon (regular/ellipse/"
         "hull/lattice/rectangle/triangle/needle; in-plane rotation, offset, scale 1e-3..1e3, shuffled input order, "
         "given as (N,2), (N,3) z=0 or tilted in space, normal None or explicit +-, and with the stored vertex order "
         "forced clockwise so that the negative-area branch runs); each core x radii {0} u 10^[-3,2] x diameter; "
@@ -35,6 +41,13 @@ ASSUMPTIONS = [
     "exterior angles are computed in double precision from exact rational facet area vectors",
     "accuracy clause: |impl - spec| <= 1e-9 * natural scale ((diam + r)^k; 1 for dimensionless descriptors, "
     "max(1,|value|) for asphericity)",
+    "planar decomposition certificate: when the stored core lies in the z = 0 plane the driver evaluates "
+    "SteinerSpec.allCcw EXACTLY over Q on the implementation's stored vertices (hypothesis of "
+    "polygon_exterior_angles_sum / spheropolygon_decomposition) and the sums of the pieces (edge rectangles, vertex "
+    "sectors with the atan2 turning angles) at Float; tilted cores are projected on their best-fit frame only in the "
+    "thorough reference, not in the certificate",
+    "iq <= 1 (isoperimetric inequality) is checked per case, not proved (theorem only for balls, boxes, rectangles, "
+    "regular polygons and for 'rounded polygon iff core')",
     "the clockwise (negative signed area) spheropolygon branch is reached by reversing the stored vertex array of "
     "the core polygon (ConvexPolygon always stores counter-clockwise vertices; _reorder_verts ignores its "
     "`clockwise` argument)",
@@ -157,6 +170,58 @@ def place_polygon(rng, v):
     return inp, normal, ref, info
 
 
+def c11_sharp_solid(rng, kind=None):
+    """Cores with knife-edge dihedrals (< 8 degrees), nearly coplanar neighbouring faces, or needle aspect.
+    Returns (kind, (n,3) vertices near the origin, O(1) size, in convex position)."""
+    kinds = ["flat-bipyramid", "thin-wedge", "flat-hull", "gable", "long-needle"]
+    for _ in range(100):
+        k = kind or kinds[int(rng.integers(len(kinds)))]
+        if k == "flat-bipyramid":
+            n = int(rng.integers(3, 9))
+            base = gen.ngon(n, phase=float(rng.uniform(0, TWO_PI)))
+            apo = math.cos(math.pi / n)
+            t = float(np.exp(rng.uniform(np.log(5e-4), np.log(0.069))))     # tan(half dihedral) at the equator
+            h1 = t * apo
+            h2 = h1 * float(np.exp(rng.uniform(-0.7, 0.7))) if rng.random() < 0.5 else h1
+            if math.atan(h1 / apo) + math.atan(h2 / apo) > math.radians(8.0):
+                continue
+            v = np.vstack([np.c_[base, np.zeros(n)], [[0, 0, h1]], [[0, 0, -h2]]])
+        elif k == "thin-wedge":
+            alpha = math.radians(float(np.exp(rng.uniform(np.log(0.05), np.log(8.0)))))
+            ell = float(np.exp(rng.uniform(-1.0, 1.5)))
+            skew = float(rng.uniform(-0.3, 0.3))
+            tri = np.array([[0.0, 0.0], [1.0, math.tan(alpha / 2) * (1 + skew)], [1.0, -math.tan(alpha / 2) * (1 - skew)]])
+            v = np.vstack([np.c_[tri, np.zeros(3)], np.c_[tri, ell * np.ones(3)]])
+        elif k == "flat-hull":
+            n = int(rng.integers(6, 40))
+            pts = rng.normal(size=(n, 3))
+            pts /= np.linalg.norm(pts, axis=1)[:, None]
+            asp = float(np.exp(rng.uniform(np.log(1e-3), np.log(0.05))))
+            pts = pts * np.array([1.0, float(np.exp(rng.uniform(-0.5, 0.5))), asp])
+            try:
+                v = pts[ConvexHull(pts).vertices]
+            except Exception:
+                continue
+        elif k == "gable":
+            # a box with a roof ridge raised by tan(tilt): two roof faces that are almost coplanar
+            e = np.exp(rng.uniform(-1, 1, size=3))
+            tilt = float(np.exp(rng.uniform(np.log(1e-5), np.log(3e-2))))
+            box = np.array([[x, y, z] for x in (-1, 1) for y in (-1, 1) for z in (0, 1)], dtype=float)
+            ridge = np.array([[0.0, -1.0, 1.0 + math.tan(tilt)], [0.0, 1.0, 1.0 + math.tan(tilt)]])
+            v = np.vstack([box, ridge]) * e
+        else:  # long-needle
+            _, b = gen.convex_base(rng, ["ellipsoid", "box", "prism", "dipyramid"][int(rng.integers(4))])
+            v = b * np.array([1.0, 1.0, float(np.exp(rng.uniform(np.log(50), np.log(1000))))])
+            v = v / np.max(np.abs(v))
+        v = np.asarray(v, dtype=float)
+        try:
+            if len(v) >= 4 and len(ConvexHull(v).vertices) == len(v) and gen.in_convex_position(v, margin=1e-9):
+                return k, v
+        except Exception:
+            continue
+    raise RuntimeError("could not generate a sharp solid")
+
+
 # --------------------------------------------------------------------------- independent core data
 
 
@@ -195,6 +260,19 @@ def exterior_angle(n1, n2):
     return math.atan2(s / float(k), float(dt / k))
 
 
+def dihedral_exact(n1, n2):
+    """interior dihedral angle from two exact (un-normalised) OUTWARD facet normals: atan2(|n1 x n2|, -n1.n2)
+    (SteinerSpec.dihedralAtan2; theorem dihedral_atan2_def: equals pi - angle(n1, n2)); well conditioned for knife
+    edges (phi -> 0) and nearly coplanar faces (phi -> pi) alike"""
+    c = _cross(n1, n2)
+    s_ = _fnorm(c)
+    dt = _dot(n1, n2)
+    k = max(abs(dt), max(abs(x) for x in c))
+    if k == 0:
+        return math.pi
+    return math.atan2(s_ / float(k), -float(dt / k))
+
+
 def angle_tol(theta):
     """tolerance for comparing an angle obtained as acos(n1.n2) of unit normals with the exact one:
     1e-9 plus the effect of 4 ulp of rounding in the dot product (acos is ill-conditioned at 0 and pi)"""
@@ -202,6 +280,15 @@ def angle_tol(theta):
     lo = math.acos(min(1.0, c + 4.5e-16))
     hi = math.acos(max(-1.0, c - 4.5e-16))
     return 1e-9 + (hi - lo)
+
+
+def asph_scale(asph, d, V, S, M):
+    """natural scale of the asphericity M S / (3 V): each of M, S, V is accurate to 1e-9 * (d, d^2, d^3) (C01's and
+    this property's accuracy clause), so the quotient is accurate to 1e-9 * |asph| * (d/M + d^2/S + d^3/V): for a
+    needle or a plate far from the origin d^3/V is 1e4..1e6 and the relative accuracy of V is what limits the quotient"""
+    if not (V > 0 and S > 0 and M > 0):
+        return max(1.0, abs(asph))
+    return max(1.0, abs(asph) * (1.0 + d / M + d * d / S + d ** 3 / V))
 
 
 def independent_core(v):
@@ -266,8 +353,9 @@ def polygon_reference(ref):
 
 def core_tokens(p):
     fi = [(int(i), int(j), int(e[0]), int(e[1])) for i, j, e in p._get_face_intersections()]
-    return fi, [L([r for r in np.asarray(p.vertices, dtype=float)]),
-                L([r for r in np.asarray(p.normals, dtype=float)]),
+    # copies: `_rescale` multiplies the vertex array IN PLACE, and the tokens are encoded only when they are sent
+    return fi, [L([r for r in np.array(p.vertices, dtype=float)]),
+                L([r for r in np.array(p.normals, dtype=float)]),
                 L(fi), float(p.volume), float(p.surface_area)]
 
 
@@ -285,8 +373,10 @@ def eval_solid(ctx, case):
         return
     try:
         with np.errstate(all="ignore"):
-            obs = {"M": float(p.mean_curvature), "tau": float(p.tau), "asph": float(p.asphericity),
-                   "iq": float(p.iq), "V": float(p.volume), "S": float(p.surface_area)}
+            obs, _order = read_shuffled({"M": lambda: float(p.mean_curvature), "tau": lambda: float(p.tau),
+                                         "asph": lambda: float(p.asphericity), "iq": lambda: float(p.iq),
+                                         "V": lambda: float(p.volume), "S": lambda: float(p.surface_area)},
+                                        ["c11-core", case["vertices"]])
     except Exception as e:
         ctx.fail("ConvexPolyhedron.mean_curvature:raises", "curvature descriptors raised %s" % exc_kind(e), case,
                  repr(e))
@@ -343,7 +433,7 @@ def eval_solid(ctx, case):
                  case, [obs["M"], Mx])
     if not ctx.close_enough(obs["tau"], taux, 1.0):
         ctx.fail("ConvexPolyhedron.tau:value", "tau differs from 4 pi M^2 / S", case, [obs["tau"], taux])
-    if not ctx.close_enough(obs["asph"], asphx, max(1.0, abs(asphx))):
+    if not ctx.close_enough(obs["asph"], asphx, asph_scale(asphx, d, Vx, Sx, Mx)):
         ctx.fail("ConvexPolyhedron.asphericity:value", "asphericity differs from M S / (3 V)", case,
                  [obs["asph"], asphx])
     if not ctx.close_enough(obs["iq"], iqx, 1.0):
@@ -363,6 +453,10 @@ def eval_solid(ctx, case):
                 ctx.fail("ConvexPolyhedron.%s:closed-form:box" % {"M": "mean_curvature", "asph": "asphericity"}.get(
                     key, key), "differs from the closed form of a box", case, [key, obs[key], want[key]])
 
+    # ---------------- certificate of the spatial decomposition theorem (vertex pieces add up to one ball)
+    if nf <= 64:
+        caps_certificate(ctx, case, p)
+
     # ---------------- dihedral angles: every neighbouring pair, and non-neighbours raise
     pairs = [(i, j) for i, j, _, _ in fi]
     nbsets = [set(int(x) for x in arr) for arr in p.neighbors]
@@ -375,8 +469,10 @@ def eval_solid(ctx, case):
                 ctx.fail("Polyhedron.get_dihedral:raises", "get_dihedral raised %s on neighbouring faces" % exc_kind(e),
                          case, [x, y, repr(e)])
                 continue
-            theta = exterior_angle(ind["facets"][fmap[x]][1], ind["facets"][fmap[y]][1])
-            want = math.pi - theta
+            want = dihedral_exact(ind["facets"][fmap[x]][1], ind["facets"][fmap[y]][1])
+            theta = math.pi - want
+            ctx.count("dihedral:knife(<8deg)" if want < math.radians(8) else
+                      "dihedral:near-coplanar(>179deg)" if want > math.radians(179) else "dihedral:ordinary")
             if not ctx.close_enough(phi, want, 1.0, tol=angle_tol(theta)):
                 ctx.fail("Polyhedron.get_dihedral:value", "dihedral angle differs from pi - angle(n1, n2)", case,
                          [x, y, phi, want])
@@ -390,7 +486,14 @@ def eval_solid(ctx, case):
                 ctx.disagree("c11.dihedral", case, [a, b, "model raised " + e.kind])
             sd = ctx.driver.F("c11.specdihedral", np.asarray(p.normals[a], dtype=float),
                               np.asarray(p.normals[b], dtype=float))[0]
-            want = math.pi - exterior_angle(ind["facets"][fmap[a]][1], ind["facets"][fmap[b]][1])
+            want = dihedral_exact(ind["facets"][fmap[a]][1], ind["facets"][fmap[b]][1])
+            sd2 = ctx.driver.F("c11.specdihedral2", np.asarray(p.normals[a], dtype=float),
+                               np.asarray(p.normals[b], dtype=float))[0]
+            if not ctx.close_enough(sd2, want, 1.0, tol=1e-9):
+                # SteinerSpec.dihedralAtan2 on the implementation's stored normals vs the same formula on the exact
+                # facet normals (theorem dihedral_atan2_def: both are pi - angle(n1, n2)); well conditioned everywhere
+                ctx.fail("Polyhedron.normals:dihedral-atan2", "stored face normals give a different dihedral angle "
+                         "(atan2 form) than the exact facet normals", case, [a, b, sd2, want])
             if not ctx.close_enough(sd, want, 1.0, tol=1e-7):
                 # the Lean spec (acos of the implementation's unit normals) vs the atan2 oracle: ties the
                 # two formulations of "pi - angle(n1, n2)"; looser because acos is ill-conditioned near pi
@@ -421,8 +524,9 @@ def eval_solid(ctx, case):
             s = coxeter.shapes.ConvexSpheropolyhedron(v, r)
             s, _how = history.maybe_via_history(s, history.rng_for([v.tolist(), r]), 0.4, ctx)
             with np.errstate(all="ignore"):
-                so = {"V": float(s.volume), "S": float(s.surface_area), "M": float(s.mean_curvature),
-                      "iq": float(s.iq)}
+                so, _order = read_shuffled({"V": lambda: float(s.volume), "S": lambda: float(s.surface_area),
+                                            "M": lambda: float(s.mean_curvature), "iq": lambda: float(s.iq)},
+                                           ["c11-sphero", case["vertices"], r])
         except Exception as e:
             ctx.fail("ConvexSpheropolyhedron:raises", "rounded solid raised %s" % exc_kind(e), case, [r, repr(e)])
             continue
@@ -488,6 +592,159 @@ def eval_solid(ctx, case):
                     and ctx.close_enough(so["M"], Mc + r, Ls)):
                 ctx.fail("ConvexSpheropolyhedron:closed-form:box", "rounded box differs from its closed forms", case,
                          [r, so, wantV, wantS, Mc + r])
+
+    if case.get("history"):
+        eval_solid_history(ctx, case, v, d, Vx, Sx, ind["edges"])
+
+
+def caps_certificate(ctx, case, p):
+    """hypotheses of vertex_caps_sum / spatial_steiner_decomposition on the implementation's OWN faces:
+    Euler's formula on the counts and 'every face is a strictly convex polygon listed counter-clockwise about its
+    outward normal' — evaluated EXACTLY (Q) on the face's vertices projected along the dominant axis of the normal
+    (an orientation-preserving affine image of the face: same left turns); and the angular-defect sum evaluated at
+    Float on in-plane orthonormal coordinates, which the theorem says is 4 pi"""
+    W = np.asarray(p.vertices, dtype=float)
+    exact, inplane = [], []
+    for face, n in zip(p.faces, np.asarray(p.normals, dtype=float)):
+        pts = W[np.asarray(face, dtype=int)]
+        k = int(np.argmax(np.abs(n)))
+        i, j = (k + 1) % 3, (k + 2) % 3
+        q = pts[:, [i, j]]
+        if n[k] < 0:
+            q = q[::-1]
+        exact.append(L([(float(a), float(b)) for a, b in q]))
+        u = np.cross(n, np.eye(3)[int(np.argmin(np.abs(n)))])
+        u /= np.linalg.norm(u)
+        w = np.cross(n, u)
+        c = pts.mean(axis=0)
+        inplane.append(L([(float((x - c) @ u), float((x - c) @ w)) for x in pts]))
+    q = ctx.driver.Q("c11.caps", len(W), L(exact), 1.0)
+    ctx.count("certificate:euler:%s" % ("ok" if int(q[0]) == 1 else "FAILED"))
+    ctx.count("certificate:faces-ccw:%s" % ("ok" if int(q[1]) == 1 else "FAILED"))
+    if int(q[0]) != 1:
+        ctx.fail("ConvexPolyhedron.faces:euler", "vertex, edge and face counts of the stored faces violate "
+                 "V - E + F = 2", case, [len(W), [len(f) for f in p.faces]])
+        return
+    if int(q[1]) != 1:
+        ctx.fail("ConvexPolyhedron.faces:not-strictly-convex-ccw", "a stored face is not a strictly convex polygon "
+                 "listed counter-clockwise about its outward normal (exact test on the projected face)", case,
+                 [[int(x) for x in f] for f in p.faces])
+        return
+    f = ctx.driver.F("c11.caps", len(W), L(inplane), 1.0)
+    if not ctx.close_enough(f[2], 4 * math.pi, 1.0, tol=1e-8):
+        ctx.obligation_breaks.append({"kind": "vertex_caps_sum: certified polytope whose angular defects (Float) do "
+                                              "not add up to 4 pi", "detail": [f[2], case.get("info")]})
+
+
+OPS3 = {"radius": 0, "_rescale": 1, "volume": 2, "surface_area": 3, "mean_curvature": 4}
+OPS2 = {"radius": 0, "_rescale": 1, "area": 2, "perimeter": 3}
+
+
+def make_history(rng, dim, r0):
+    """1-4 mutators with interleaved reads; the LAST state has radius > 0 in 3 of 4 cases (a stale cached edge term is
+    multiplied by r, so it only shows then).  Values are factors (relative to the current value) for size setters
+    and multiples of the core diameter for the radius."""
+    names = (["volume", "surface_area", "mean_curvature"] if dim == 3 else ["area", "perimeter"])
+    ops = []
+    n = int(rng.integers(1, 5))
+    for i in range(n):
+        u = rng.random()
+        if u < 0.25:
+            ops.append(["read", None])
+        if u < 0.55:
+            ops.append([names[int(rng.integers(len(names)))], float(np.exp(rng.uniform(-1.6, 1.6)))])
+        elif u < 0.7:
+            ops.append(["_rescale", float(np.exp(rng.uniform(-1.2, 1.2)))])
+        else:
+            ops.append(["radius", 0.0 if rng.random() < 0.3 else float(10 ** rng.uniform(-2, 0.7))])
+    if r0 == 0 and all(o[0] != "radius" for o in ops):
+        ops.append(["radius", float(10 ** rng.uniform(-2, 0.7))])
+    if rng.random() < 0.5:
+        ops.insert(0, ["read", None])
+    if not any(o[0] not in ("read", "radius") for o in ops):
+        ops.insert(int(rng.integers(len(ops) + 1)), [names[int(rng.integers(len(names)))],
+                                                     float(np.exp(rng.uniform(-1.6, 1.6)))])
+    return ops
+
+
+def eval_solid_history(ctx, case, v, d, Vx, Sx, edges):
+    """explicit multi-step history on a ConvexSpheropolyhedron: B against the Lean model of the mutators (c11.hist3),
+    C against the spec on the independent core data scaled by the factor K read off the object's vertices"""
+    import coxeter
+    hist = case["history"]
+    r0 = float(hist["r0"]) * d
+    try:
+        s = coxeter.shapes.ConvexSpheropolyhedron(v, r0)
+    except Exception as e:
+        ctx.fail("ConvexSpheropolyhedron:raises", "rounded solid raised %s" % exc_kind(e), case, [r0, repr(e)])
+        return
+    _, toks0 = core_tokens(s.polyhedron)
+    v0 = np.array(s.vertices, dtype=float)
+    mops = []
+    try:
+        with np.errstate(all="ignore"):
+            for name, val in hist["ops"]:
+                if name == "read":
+                    read_shuffled({"V": lambda: s.volume, "S": lambda: s.surface_area, "M": lambda: s.mean_curvature,
+                                   "iq": lambda: s.iq}, ["c11-hist", case["vertices"], len(mops)])
+                elif name == "radius":
+                    s.radius = val * d
+                    mops.append((OPS3[name], float(val * d)))
+                elif name == "_rescale":
+                    s._rescale(val)
+                    mops.append((OPS3[name], float(val)))
+                else:
+                    target = float(getattr(s, name)) * val
+                    setattr(s, name, target)
+                    mops.append((OPS3[name], target))
+            so = {"r": float(s.radius), "V": float(s.volume), "S": float(s.surface_area), "M": float(s.mean_curvature),
+                  "cV": float(s.polyhedron.volume), "cS": float(s.polyhedron.surface_area),
+                  "cM": float(s.polyhedron.mean_curvature), "tau": float(s.polyhedron.tau),
+                  "asph": float(s.polyhedron.asphericity), "iq": float(s.polyhedron.iq)}
+    except Exception as e:
+        ctx.fail("ConvexSpheropolyhedron:history:raises", "a mutator / read raised %s along a valid history"
+                 % exc_kind(e), case, [hist, repr(e)])
+        return
+    ctx.count("history3:len=%d" % len(mops))
+    v1 = np.array(s.vertices, dtype=float)
+    i = int(np.argmax(np.linalg.norm(v0, axis=1)))
+    K = float(np.linalg.norm(v1[i]) / np.linalg.norm(v0[i])) if np.linalg.norm(v0[i]) > 0 else 1.0
+    dK = d * K
+    Ls = dK + so["r"]
+    if not ctx.close_enough(v1, K * v0, max(dK, float(np.max(np.abs(v1)))), tol=1e-12):
+        ctx.fail("ConvexSpheropolyhedron:history:not-similar", "after a history of size setters the core is not a "
+                 "uniformly scaled copy (about the origin) of the initial core", case, [hist, K])
+        return
+    # ---- B: the Lean model of the same mutators on the initial object's own data
+    try:
+        m = ctx.driver.F("c11.hist3", *toks0, float(r0), L(mops))
+        mv = np.array(m[6:], dtype=float).reshape(-1, 3)
+        ok = (ctx.close_enough(so["r"], m[0], Ls) and ctx.close_enough(so["V"], m[1], Ls ** 3)
+              and ctx.close_enough(so["S"], m[2], Ls ** 2) and ctx.close_enough(so["M"], m[3], Ls)
+              and ctx.close_enough(so["cV"], m[4], dK ** 3) and ctx.close_enough(so["cS"], m[5], dK ** 2)
+              and mv.shape == v1.shape and ctx.close_enough(v1, mv, max(dK, float(np.max(np.abs(v1))))))
+        if not ok:
+            ctx.disagree("c11.hist3", case, [hist, so, m[:6]])
+    except ModelRaise as e:
+        ctx.disagree("c11.hist3", case, [hist, "model raised " + e.kind])
+    # ---- C: Steiner in the CURRENT core (independent data scaled by K), descriptors invariant
+    etoks = L([(float(a) * K, float(b)) for a, b in edges])
+    sp = ctx.driver.F("c11.spec3", Vx * K ** 3, Sx * K ** 2, so["r"], etoks)
+    if not ctx.close_enough(so["V"], sp[2], Ls ** 3):
+        ctx.fail("ConvexSpheropolyhedron.volume:steiner:history", "after a history of mutators the volume differs "
+                 "from the Steiner polynomial of the current core", case, [hist, so["V"], sp[2]])
+    if not ctx.close_enough(so["S"], sp[3], Ls ** 2):
+        ctx.fail("ConvexSpheropolyhedron.surface_area:steiner:history", "after a history of mutators the surface "
+                 "area differs from the Steiner polynomial of the current core", case, [hist, so["S"], sp[3]])
+    if not ctx.close_enough(so["M"], sp[4], Ls):
+        ctx.fail("ConvexSpheropolyhedron.mean_curvature:steiner:history", "after a history of mutators the mean "
+                 "curvature differs from M + r of the current core", case, [hist, so["M"], sp[4]])
+    if not (ctx.close_enough(so["cM"], sp[0], dK) and ctx.close_enough(so["tau"], sp[7], 1.0)
+            and ctx.close_enough(so["asph"], sp[8], asph_scale(sp[8], dK, Vx * K ** 3, Sx * K ** 2, sp[0]))
+            and ctx.close_enough(so["iq"], sp[9], 1.0)):
+        ctx.fail("ConvexPolyhedron.descriptors:history", "after a history of mutators mean_curvature / tau / "
+                 "asphericity / iq of the core differ from their definitions (tau, asphericity, iq are similarity "
+                 "invariants)", case, [hist, so, [sp[0], sp[7], sp[8], sp[9]]])
 
 
 # --------------------------------------------------------------------------- 2-D
@@ -563,6 +820,8 @@ def eval_polygon(ctx, case):
                 if not ctx.close_enough(float(pol.iq), q[3], 1.0):
                     ctx.fail("ConvexPolygon.iq:value", "polygon iq differs from 4 pi A / P^2", case,
                              [float(pol.iq), q[3]])
+            if not forced_cw and case["info"]["embed"] in ("2d", "3d-z0"):
+                decomposition_certificate(ctx, case, sp, so, r, d)
             cf = case.get("closed_form")
             if cf:
                 a, b = cf["rect"]
@@ -570,6 +829,122 @@ def eval_polygon(ctx, case):
                         and ctx.close_enough(so["perimeter"], 2 * (a + b) + 2 * math.pi * r, Ls)):
                     ctx.fail("ConvexSpheropolygon:closed-form:rectangle", "rounded rectangle differs from its closed "
                              "forms", case, [r, so])
+
+
+def decomposition_certificate(ctx, case, sp, so, r, d):
+    """the stored core lies in z = 0: certify the hypothesis of polygon_exterior_angles_sum /
+    spheropolygon_decomposition EXACTLY (allCcw over Q on the implementation's stored vertices, listed
+    counter-clockwise about +z) and compare area / perimeter with the SUM OF THE PIECES of the parallel body
+    (polygon + edge rectangles + vertex sectors with atan2 turning angles), evaluated by the Lean spec at Float"""
+    W = np.asarray(sp.vertices, dtype=float)
+    if W.shape[1] == 3 and np.any(W[:, 2] != 0):
+        return
+    xy = W[:, :2]
+    if float(np.asarray(sp.normal, dtype=float)[2]) < 0:
+        xy = xy[::-1]
+    rows = L([(float(x), float(y)) for x, y in xy])
+    q = ctx.driver.Q("c11.poly2", rows, float(r))
+    ctx.count("certificate:allCcw:%s" % ("ok" if int(q[0]) == 1 else "FAILED"))
+    if int(q[0]) != 1:
+        ctx.fail("ConvexSpheropolygon.vertices:not-strictly-convex-ccw", "the stored vertices of a strictly convex "
+                 "core are not in strictly convex counter-clockwise order about the stored normal (exact test)",
+                 case, [r, xy.tolist()])
+        return
+    f = ctx.driver.F("c11.poly2", rows, float(r))
+    # f: allCcw turnSum perimeter2 shoelace2 parallelArea2 parallelPerimeter2
+    Ls = d + r
+    if not ctx.close_enough(f[1], TWO_PI, 1.0):
+        ctx.obligation_breaks.append({"kind": "polygon_exterior_angles_sum: certified polygon whose turning angles "
+                                              "(Float) do not add up to 2 pi", "detail": [f[1], xy.tolist()]})
+    if not ctx.close_enough(abs(float(q[3])), abs(float(sp.polygon.signed_area)), d ** 2):
+        ctx.fail("ConvexPolygon.signed_area:value:exact-shoelace", "core area differs from the exact rational "
+                 "shoelace area of the stored vertices", case, [float(q[3]), float(sp.polygon.signed_area)])
+    if not ctx.close_enough(so["area"], f[4], Ls ** 2):
+        ctx.fail("ConvexSpheropolygon.area:decomposition", "area differs from polygon + edge rectangles + vertex "
+                 "sectors", case, [r, so["area"], f[4]])
+    if not ctx.close_enough(so["perimeter"], f[5], Ls):
+        ctx.fail("ConvexSpheropolygon.perimeter:decomposition", "perimeter differs from edges + vertex arcs", case,
+                 [r, so["perimeter"], f[5]])
+
+
+def eval_polygon_history(ctx, case):
+    """explicit history on a ConvexSpheropolygon (both orientations of the stored core): B against the Lean model of
+    the mutators (c11.hist2, polygon.signed_area = the model of C04), C: sign of the INITIAL core kept, area and
+    perimeter = planar Steiner polynomials of the reference polygon scaled by the factor read off the vertices"""
+    import coxeter
+    hist = case["history"]
+    inp = np.array(case["input"], dtype=float)
+    ref = np.array(case["ref"], dtype=float)
+    d = gen.diameter(ref)
+    A, P = polygon_reference(ref)
+    r0 = float(hist["r0"]) * d
+    for forced_cw in ([False, True] if case.get("also_cw") else [False]):
+        tag = ":cw" if forced_cw else ""
+        try:
+            sp = coxeter.shapes.ConvexSpheropolygon(inp, r0, normal=case["normal"])
+            if forced_cw:
+                sp.polygon._vertices = sp.polygon._vertices[::-1].copy()
+            v0 = np.array(sp.vertices, dtype=float)
+            nrm = np.array(sp.normal, dtype=float)
+            a0 = float(sp.polygon.signed_area)
+            mops = []
+            with np.errstate(all="ignore"):
+                for name, val in hist["ops"]:
+                    if name == "read":
+                        read_shuffled({"s": lambda: sp.signed_area, "a": lambda: sp.area, "p": lambda: sp.perimeter,
+                                       "iq": lambda: sp.iq}, ["c11-hist2", case["input"], len(mops)])
+                    elif name == "radius":
+                        sp.radius = val * d
+                        mops.append((OPS2[name], float(val * d)))
+                    elif name == "_rescale":
+                        sp._rescale(val)
+                        mops.append((OPS2[name], float(val)))
+                    else:
+                        target = float(getattr(sp, name)) * val
+                        setattr(sp, name, target)
+                        mops.append((OPS2[name], target))
+                so = {"r": float(sp.radius), "signed": float(sp.signed_area), "area": float(sp.area),
+                      "perimeter": float(sp.perimeter)}
+        except Exception as e:
+            ctx.fail("ConvexSpheropolygon:history:raises" + tag, "a mutator / read raised %s along a valid history"
+                     % exc_kind(e), case, [hist, forced_cw, repr(e)])
+            continue
+        ctx.count("history2:len=%d" % len(mops))
+        v1 = np.array(sp.vertices, dtype=float)
+        i = int(np.argmax(np.linalg.norm(v0, axis=1)))
+        K = float(np.linalg.norm(v1[i]) / np.linalg.norm(v0[i])) if np.linalg.norm(v0[i]) > 0 else 1.0
+        dK = d * K
+        Ls = dK + so["r"]
+        big = max(dK, float(np.max(np.abs(v1))))
+        if not ctx.close_enough(v1, K * v0, big, tol=1e-12):
+            ctx.fail("ConvexSpheropolygon:history:not-similar" + tag, "after a history of size setters the core is "
+                     "not a uniformly scaled copy of the initial core", case, [hist, K])
+            continue
+        try:
+            m = ctx.driver.F("c11.hist2", L([row for row in v0]), nrm, float(r0), L(mops))
+            mv = np.array(m[4:], dtype=float).reshape(-1, 3)
+            ok = (ctx.close_enough(so["r"], m[0], Ls) and ctx.close_enough(so["signed"], m[1], Ls ** 2)
+                  and ctx.close_enough(so["area"], m[2], Ls ** 2) and ctx.close_enough(so["perimeter"], m[3], Ls)
+                  and mv.shape == v1.shape and ctx.close_enough(v1, mv, big))
+            if not ok:
+                ctx.disagree("c11.hist2", case, [hist, forced_cw, so, m[:4]])
+        except ModelRaise as e:
+            ctx.disagree("c11.hist2", case, [hist, "model raised " + e.kind])
+        q = ctx.driver.F("c11.spec2", A * K * K, P * K, so["r"])
+        want_signed = -q[0] if a0 < 0 else q[0]
+        if (a0 < 0) != forced_cw:
+            ctx.fail("ConvexPolygon.signed_area:value" + tag, "core orientation differs from the expected one", case,
+                     [forced_cw, a0])
+        if not ctx.close_enough(so["signed"], want_signed, Ls ** 2):
+            ctx.fail("ConvexSpheropolygon.signed_area:steiner:history" + tag, "after a history of mutators the signed "
+                     "area is not +-(A + P r + pi r^2) of the current core with the sign of the core", case,
+                     [hist, so["signed"], want_signed])
+        if not ctx.close_enough(so["area"], q[0], Ls ** 2):
+            ctx.fail("ConvexSpheropolygon.area:steiner:history" + tag, "after a history of mutators the area differs "
+                     "from A + P r + pi r^2 of the current core", case, [hist, so["area"], q[0]])
+        if not ctx.close_enough(so["perimeter"], q[1], Ls):
+            ctx.fail("ConvexSpheropolygon.perimeter:steiner:history" + tag, "after a history of mutators the "
+                     "perimeter differs from P + 2 pi r of the current core", case, [hist, so["perimeter"], q[1]])
 
 
 # --------------------------------------------------------------------------- cases
@@ -581,8 +956,10 @@ def radii_for(rng, d):
     return rs
 
 
-def make_solid_case(rng, ctx):
+def make_solid_case(rng, ctx, force=None):
     u = rng.random()
+    if force in ("sharp", "needle"):
+        u = 0.2
     if u < 0.12:
         e = np.exp(rng.uniform(-1.5, 1.5, size=3)) if rng.random() < 0.6 else np.ones(3) * float(
             np.exp(rng.uniform(-1.5, 1.5)))
@@ -591,9 +968,36 @@ def make_solid_case(rng, ctx):
         info["kind"] = "closed-form-box"
         e = e * info["scale"]
         case = {"dim": 3, "vertices": v.tolist(), "info": info, "closed_form": {"box": [float(x) for x in e]}}
+    elif u < 0.36 or force == "sharp":
+        kind, base = c11_sharp_solid(rng, kind="long-needle" if force == "needle" else None)
+        if rng.random() < 0.3:
+            base = base @ gen.near_axis_rotation(rng).T
+            v, info = gen.place(rng, base, rotate=False)
+            info["frame"] = "near-axis"
+        else:
+            v, info = gen.place(rng, base)
+        info["kind"] = "sharp:" + kind
+        info["n"] = len(v)
+        case = {"dim": 3, "vertices": v.tolist(), "info": info}
+        if not gen.in_convex_position(v):      # after the placement, with gen's usual margin (1e-7 * diameter)
+            return make_solid_case(rng, ctx, force)
+    elif u < 0.44:
+        # boxes / prisms in an ALMOST axis-aligned frame (tilt 1e-7 .. 3e-2 rad)
+        kind, base = gen.convex_base(rng, ["box", "prism", "lattice"][int(rng.integers(3))])
+        base = base @ gen.near_axis_rotation(rng).T
+        v, info = gen.place(rng, base, rotate=False)
+        info["kind"] = "neartilt:" + kind
+        info["n"] = len(v)
+        case = {"dim": 3, "vertices": v.tolist(), "info": info}
+        if not gen.in_convex_position(v):
+            return make_solid_case(rng, ctx, force)
     else:
         v, info = gen.convex_solid(rng)
         case = {"dim": 3, "vertices": v.tolist(), "info": info}
+    if rng.random() < 0.3:
+        r0 = 0.0 if rng.random() < 0.25 else float(10 ** rng.uniform(-2, 0.7))
+        case["history"] = {"r0": r0, "ops": make_history(rng, 3, r0)}
+        ctx.count("3d:explicit-history")
     ctx.count("kind3:" + info["kind"])
     ctx.count("3d:rotated" if info["rotated"] else "3d:axis-aligned")
     ctx.count("3d:offset>0" if info["offset_diams"] > 0 else "3d:offset=0")
@@ -618,6 +1022,10 @@ def make_polygon_case(rng, ctx):
     ctx.count("2d:normal:" + info["normal"])
     ctx.count("2d:cw-forced" if case["also_cw"] else "2d:ccw-only")
     case["radii"] = radii_for(rng, gen.diameter(ref))
+    if rng.random() < 0.3:
+        r0 = 0.0 if rng.random() < 0.25 else float(10 ** rng.uniform(-2, 0.7))
+        case["history"] = {"r0": r0, "ops": make_history(rng, 2, r0)}
+        ctx.count("2d:explicit-history")
     return case
 
 
@@ -628,15 +1036,23 @@ def eval_case(ctx, case):
         eval_solid(ctx, case)
     else:
         eval_polygon(ctx, case)
+        if case.get("history"):
+            eval_polygon_history(ctx, case)
 
 
 def run(ctx):
-    n3 = ctx.budget(110, 3000)
-    n2 = ctx.budget(300, 8000)
+    n3 = ctx.budget(90, 1700)
+    n2 = ctx.budget(260, 4500)
     for _ in range(n3):
         case = make_solid_case(ctx.rng, ctx)
         ctx.case(case)
         eval_case(ctx, case)
+    # guaranteed minimum of the knife-edge / nearly-coplanar / needle classes in every tier
+    for force, n in (("sharp", ctx.budget(24, 300)), ("needle", ctx.budget(8, 90))):
+        for _ in range(n):
+            case = make_solid_case(ctx.rng, ctx, force)
+            ctx.case(case)
+            eval_case(ctx, case)
     tabs = gen.tabulated_solids()
     k = 8 if (ctx.tier == "quick" and ctx.widen == 1) else min(len(tabs), 120)
     idx = ctx.rng.choice(len(tabs), size=k, replace=False)
